@@ -6,14 +6,6 @@ from checks import difflib2 as D
 PROP = "C09"
 PROP_V = "Properties/C09.v"
 
-# named deviations from the property that the faithful model reproduces and the Coq development
-# states (C09_reject_partial, C09_reject_4xx_refuted, C09_oversize_body_500)
-DEVIATIONS = {
-    "C09-oversize-body-500": "a request body longer than 128 KiB (http.MaxBytesHandler) makes io.ReadAll fail and is answered 500 Internal Server Error instead of a client error (no leaf is logged)",
-    "C09-precert-tbs-500": "a precertificate chain that verifies but whose TBSCertificate x509.BuildPrecertTBS refuses (e.g. two CT poison extensions) is answered 500 Internal Server Error instead of a client error (no leaf is logged)",
-}
-
-
 def cb(h):
     return D.coq_bytes(h)
 
@@ -97,7 +89,7 @@ def main(tier, seed, replay):
         p = L.write_replay(PROP, "model_build.txt", mlog[-6000:])
         res.violation(p, "model extraction/build failed", no_input=True)
     st, work, mlines = {}, [], []
-    ncross, stats, devs = 0, {}, {}
+    ncross, stats = 0, {}
     if hexe and mexe:
         n = 150 if tier == "quick" else 2500
         args = ["-seed=%d" % seed, "-n=%d" % n]
@@ -114,22 +106,6 @@ def main(tier, seed, replay):
             op, a, r = D.split_line(l)
             if op == "stat":
                 stats[a[0]] = stats.get(a[0], 0) + int(r)
-            elif op.startswith("dev_"):
-                fid = r.split(":")[0]
-                devs.setdefault(fid, []).append(l)
-        # named deviations: known finding (known_findings.json) or reported, never silent
-        for fid, ls in sorted(devs.items()):
-            kf = [f for f in L.known_findings() if f.get("property") == PROP and f.get("status") == "known"
-                  and fid.startswith(f.get("match", "\0"))]
-            if kf:
-                if kf[0]["what"] not in res.known:
-                    res.known.append(kf[0]["what"])
-            else:
-                p = L.write_replay(PROP, "deviation_%s.txt" % fid,
-                                   "deviation from the property that the model reproduces and Properties/C09.v states (C09_reject_partial, C09_reject_4xx_refuted, C09_oversize_body_500): %s\n%d cases in this run; first:\n%s\n" % (DEVIATIONS.get(fid, fid), len(ls), ls[0]))
-                print("# DEVIATION %s (%d cases; not listed in known_findings.json; concrete input: %s): %s" % (fid, len(ls), p, DEVIATIONS.get(fid, "unnamed deviation")))
-                if fid not in DEVIATIONS:
-                    res.violation(p, "unnamed deviation line " + fid)
         rnd = random.Random(seed)
         subs = [c for c in (coq_submit(l) for l in mlines) if c]
         by = {}
@@ -159,7 +135,6 @@ def main(tier, seed, replay):
         "model_impl_differences": st.get("diffs", 0), "vm_compute_crosschecked": ncross,
         "op_distribution": st.get("ops", {}), "result_distribution": st.get("results", {}),
         "generator_distribution": stats,
-        "property_deviations": {k: {"cases": len(v), "what": DEVIATIONS.get(k, "?"), "example": v[0][:400]} for k, v in devs.items()},
         "samples": pick(lambda l: "|=>|200:" in l and "|chain|" in l) + pick(lambda l: "|=>|200:" in l and "|prechain|" in l)
                    + pick(lambda l: "|=>|400:" in l and "|none|" not in l) + [l[:300] for l in work if l.startswith("setroots")][:1]
                    + cov.get("theorems", [])[:2],
